@@ -25,6 +25,9 @@ EXC_NAMES = {
     "FileNotFoundError", "RuntimeError", "LookupError", "SyntaxError", "ImportError",
 }
 
+TAGS = {"builtin", "exc", "excinst", "func", "class", "extmod", "extattr", "ext", "repomod", "classattr",
+        "args", "emptylist", "enumerate", "reversed", "range", "rsplit1", "idset", "modconst", "typeof",
+        "ctxmgr", "dictobj", "method"}
 SENTINELS = {"linebreak": 1, "empty_line": 2, "comma": 3}
 WS_CHARS = " \t\n\r\x0b\x0c"
 
@@ -182,7 +185,7 @@ class Evaluator:
                 return VStr(S(o.decode("latin-1")), is_char=len(o) == 1, is_bytes=True)
             if o is None:
                 return VNone()
-            if isinstance(o, tuple):
+            if isinstance(o, tuple) and not (o and isinstance(o[0], str) and o[0] in TAGS):
                 return VTuple([self.lift(VPy(x)) for x in o])
         return v
 
